@@ -14,6 +14,7 @@ import tempfile
 from vf import common, shard, boot
 
 PROP = "C11"
+FIRST_OUTPUT_NAME = "circuit.zkif"     # taken by a directory in the "first-prove-fails" script variant
 FIELDS = {
     "zkinterface": 21888242871839275222246405745257275088548364400416034343698204186575808495617,
     "zkifbellman": 52435875175126190479447740508185965837690552500527637822603658699938581184513,
@@ -42,7 +43,7 @@ def main():
         for s in range(4 if tier == "quick" else 10):
             nsh = 4 if tier == "quick" else 10
             jobs.append(dict(seed="%d/%s/%s/%d" % (common.seed(), PROP, be, s), backend=be, n=n, scripts=1 if tier == "quick" else 3,
-                             sizes=[[npub, (npub * 7 + 3) % 5, (npub * 3) % 4] for npub in range(s, 131, nsh)]))
+                             sizes=[[npub, (npub * 7 + 3) % 5, (npub * 3) % 3] for npub in range(s, 131, nsh)]))
     R = common.Run(PROP, "translation_validation", RULE)
     boot.spread_pyflags(jobs)
     for job, res, err in shard.run_jobs("vf.checks.C11", "worker", jobs, timeout=3600, nproc=16, shims=("flatbuffers",)):
@@ -337,18 +338,38 @@ def worker(job):
     # a slice through the at-exit path as real scripts
     for k in range(job["scripts"]):
         src, inputs = realrun.hostile_program(rnd, p)
-        wd = tempfile.mkdtemp(prefix="c11s-", dir=home)
+        wd = wd_top = tempfile.mkdtemp(prefix="c11s-", dir=home)
         try:
+            # variants of the same script: it changes directory after importing the library (files belong where the script
+            # is when it ends); its first explicit prove() fails because an output name is taken by a directory, the script
+            # removes the obstacle and the run ends normally.  (A standard error that refuses writes is NOT a variant: the
+            # writers report progress there, a failing report aborts them - an environment fault the property does not cover.)
+            variant = ["plain", "chdir", "first-prove-fails"][(int(job["seed"].rsplit("/", 1)[1]) + k + len(job["seed"])) % 3]
+            extra = {"plain": "", "chdir": "import os\nos.makedirs('sub')\nos.chdir('sub')\n",
+                     "first-prove-fails": ("import os, shutil\nos.makedirs(FIRSTOUT)\ntry:\n    _rt0 = __import__('pysnark.runtime').runtime\n    _rt0.backend.prove()\n"
+                                           "except Exception:\n    pass\nshutil.rmtree(FIRSTOUT)\n")}[variant]
             script = ("import json, sys\nsys.set_int_max_str_digits(0)\nfrom pysnark.runtime import *\nfrom pysnark.boolean import *\nI = %r\n%s\n"
-                      "import pysnark.runtime as _rt\n_b = _rt.backend\n"
+                      "import pysnark.runtime as _rt\n_b = _rt.backend\n" + extra.replace("FIRSTOUT", repr(FIRST_OUTPUT_NAME)) +
                       "json.dump(dict(p=_b.get_modulus(), pubvals=[int(v) for v in _b.pubvals], privvals=[int(v) for v in _b.privvals],\n"
                       "    constraints=[[sorted(x.lc.items()) for x in c] for c in _b.constraints]), open('trace.json', 'w'))\n") % (inputs, src)
             open(os.path.join(wd, "prog.py"), "w").write(script)
-            pr = subprocess.run([boot.PY] + boot.pyflags() + ["prog.py"], cwd=wd, env=boot.child_env({"PYSNARK_BACKEND": be}, shims=("flatbuffers",)),
-                                stdout=subprocess.PIPE, stderr=subprocess.PIPE, timeout=120)
-            if pr.returncode != 0 or not os.path.exists(os.path.join(wd, "trace.json")):
+            errdev = open("/dev/full", "w") if (variant == "stderr-full" and os.path.exists("/dev/full")) else subprocess.PIPE
+            try:
+                pr = subprocess.run([boot.PY] + boot.pyflags() + ["prog.py"], cwd=wd, env=boot.child_env({"PYSNARK_BACKEND": be}, shims=("flatbuffers",)),
+                                    stdout=subprocess.PIPE, stderr=errdev, timeout=120)
+            finally:
+                if errdev is not subprocess.PIPE:
+                    errdev.close()
+            R.count("script_variant:" + variant)
+            root = os.path.join(wd, "sub") if variant == "chdir" else wd
+            if (pr.returncode != 0 and variant != "stderr-full") or not os.path.exists(os.path.join(root, "trace.json")):
                 R.count("script_raised")
                 continue
+            if variant == "chdir":
+                stray = [fn for fn in os.listdir(wd) if fn.endswith((".r1cs", ".wtns", ".zkif"))]
+                if stray:
+                    R.violation("files-in-import-time-directory", "the script changed directory after importing the library; %s appeared in the directory of the import" % stray, src=src, inputs=inputs)
+                wd = root
             import sys
             sys.set_int_max_str_digits(0)
             tr = json.load(open(os.path.join(wd, "trace.json")))
@@ -358,7 +379,7 @@ def worker(job):
             R.count("scripts_validated")
             R.case(cell="%s|script|at-exit" % be, key=("script", be, src, tuple(inputs)))
         finally:
-            shutil.rmtree(wd, ignore_errors=True)
+            shutil.rmtree(wd_top, ignore_errors=True)
     return R.export()
 
 
